@@ -56,6 +56,7 @@ def main():
     ap.add_argument("--checks", default="")
     ap.add_argument("--skip-tests", action="store_true")
     ap.add_argument("--skip-demo", action="store_true")
+    ap.add_argument("--skip-checks", action="store_true")
     ap.add_argument("--tier", default="quick")
     ap.add_argument("--seed", default="0")
     a = ap.parse_args()
@@ -120,7 +121,7 @@ def main():
             print("unit tests:", result["unit_tests"])
         result["confirmed"] = bool(result.get("demo_clean_exit") == 0 and result.get("demo_patched_exit") not in (0, None)
                                    and result.get("unit_tests", {}).get("exit") == 0)
-        for pid in [a.pid] + [c for c in a.checks.split(",") if c and c != a.pid]:
+        for pid in ([] if a.skip_checks else [a.pid] + [c for c in a.checks.split(",") if c and c != a.pid]):
             t0 = time.time()
             rc, out = sh(f"./check {pid} --tier {a.tier}", cwd=VERIF, env={"KT_REPO": wt, "VERIF_SEED": a.seed}, timeout=3600)
             out = clean(out)
